@@ -91,6 +91,11 @@ def generate(tier, seed):
             for redef in ["(defmacro rm (x) %s)" % body2, "(defun rm (x) (list 'fn x))", "(progn (defmacro rm (x) %s) (defmacro rm (x) %s))" % (body1, body2)]:
                 lines += ["NEW", "EVAL (defmacro rm (x) %s)" % body1, "EVAL " + holder, "EVAL (eval form)", "EVAL " + redef, "EVAL (eval form)",
                           "EVAL (eval (macroexpand form))", "EVAL (equal (eval form) (eval (macroexpand form)))", "EVAL (macroexpand form)", "EVAL form"]
+    for body, call in [('"1.2.3"', "(cm)"), ('"doc" "value"', "(cm)"), ("4", "(cm)"), ("nil", "(cm)"), ("", "(cm)"), ('"doc" (list \'quote x)', "(cm1 7)"), ('"only-doc"', "(cm1 7)"),
+                       ('(declare (x)) "s"', "(cm)"), ("'sym", "(cm)"), ('"a" "b" "c"', "(cm)"), (":k", "(cm)"), ("t", "(cm)"), ('(concat "x" "y")', "(cm)")]:
+        nm = "cm1" if "cm1" in call else "cm"
+        lines += ["NEW", "EVAL (defmacro %s (%s) %s)" % (nm, "x" if nm == "cm1" else "", body), "EVAL (macroexpand '%s)" % call, "EVAL " + call,
+                  "EVAL (list %s (concat \"v\" (format \"%%s\" %s)))" % (call, call), "EVAL (defun df%s (%s) %s)" % (nm, "x" if nm == "cm1" else "", body), "EVAL (df%s)" % call[1:]]
     # built-in macros with 0..4 plain argument forms
     for m in ["when", "unless", "if-let", "if-let*", "when-let", "while-let", "->", "->>", "thread-first", "thread-last", "quote"]:
         for k in range(0, 5):
